@@ -11,8 +11,8 @@
 From Coq Require Import ZArith List Bool NArith.
 Import ListNotations.
 Require Import PV.Narrow.Base PV.Narrow.Model PV.Narrow.Guards.
-Require Import PV.Gen.NarrowTable PV.Gen.NarrowPreds.
-Require Import PV.Proofs.NarrowSkel.
+Require Import PV.Gen.NarrowTable PV.Gen.NarrowPreds PV.Gen.NarrowSrc.
+Require Import PV.Proofs.NarrowSkel PV.Proofs.NarrowSrcTie.
 Require Import PV.Proofs.NarrowBasics PV.Proofs.NarrowMain PV.Proofs.NarrowWiden PV.Proofs.NarrowVerdict.
 
 (* the class table (mro, TypeObject.base_classes, artificial bases), the per-class
@@ -64,6 +64,73 @@ Proof.
 Qed.
 Print Assumptions C02_model_predicates_are_skeletons.
 
+(* how source conditions become constraints: the construction sites of name_check_visitor
+   (_constraint_from_compare_op, visit_UnaryOp, visit_BoolOp), implementation (_isinstance_impl,
+   _issubclass_impl, _bool_impl, _len_impl), signature (TypeIs, TypeGuard) and patma (singleton, value,
+   sequence, mapping, class, or, make_constraint), read off the ast on every run, are exactly what
+   cond_acon / match_seq / match_map build *)
+Theorem C02_source_conditions_tie :
+  (forall k ls, cond_acon (compare_cond k ls) = ALeaf (compare_leaf (gen_compare k) ls)) /\
+  (forall cs, isassign_leaf gen_isinstance_site cs = Some (KPred (PIsAssignable (map VTyped cs) false) true) /\
+              cond_acon (CIsInstance cs) = ALeaf (KPred (PIsAssignable (map VTyped cs) false) true)) /\
+  (forall cs, isassign_leaf gen_issubclass_site cs = Some (KPred (PIsAssignable (map VSub cs) false) true) /\
+              cond_acon (CIsSubclass cs) = ALeaf (KPred (PIsAssignable (map VSub cs) false) true)) /\
+  (forall t, fst (fst gen_typeis_site) = T_predicate /\
+             cond_acon (CTypeIs t) = ALeaf (KPred (PIsAssignable t (snd gen_typeis_site)) (snd (fst gen_typeis_site)))) /\
+  (forall t, fst gen_typeguard_site = T_is_value_object /\
+             cond_acon (CTypeGuard t) = ALeaf (KValueObject t (snd gen_typeguard_site))) /\
+  (gen_bool_site = (T_is_truthy, true) /\ cond_acon CTruthy = ALeaf (KTruthy (snd gen_bool_site)) /\
+   gen_len_site = true /\ gen_not_inverts = true /\ gen_and_reversed = true) /\
+  (forall (pre : list epat) (star : bool) (post : list epat),
+     let npat := (length pre + length post + (if star then 1 else 0))%nat in
+     match_seq pre star post =
+     CPAnd (CSeqIs (gen_seq_po npat star))
+           (CPAnd (CSeqLen (fst (gen_seq_len npat star)) (snd (gen_seq_len npat star))) (CElems pre star post))) /\
+  (forall kps, match_map kps = CPAnd (CMapIs (gen_map_po (length kps))) (CMapKeys kps)) /\
+  (forall (c : cls) (l : obj),
+     gen_make_positive = true /\ gen_matchor_is_or = true /\
+     cond_acon (CIs l) = ALeaf (KPred (PEquals l gen_singleton_is) gen_make_positive) /\
+     cond_acon (CEq l) = ALeaf (KPred (PEquals l gen_value_is) gen_make_positive) /\
+     cond_acon (CMatchClass c) = ALeaf (KPred (PIsAssignable [VTyped c] (gen_class_po false false)) gen_make_positive) /\
+     cond_acon (CIsInstance [c]) = ALeaf (KPred (PIsAssignable [VTyped c] (gen_class_po true false)) gen_make_positive) /\
+     cond_acon CAlways = ALeaf (KPred PAlways gen_make_positive)).
+Proof.
+  exact (conj compare_tie (conj isinstance_tie (conj issubclass_tie (conj typeis_tie (conj typeguard_tie
+        (conj bool_len_tie (conj match_seq_tie (conj match_map_tie match_misc_tie)))))))).
+Qed.
+Print Assumptions C02_source_conditions_tie.
+
+(* inversion / application of the abstract constraints and the bodies of EqualsPredicate and
+   InPredicate, translated from stacked_scopes.py / predicates.py, are the model's *)
+Theorem C02_constraint_algebra_tie :
+  (forall (a b : acon) (k : constr),
+     invert (AAnd a b) = mk gen_and_invert (invert a) (invert b) /\
+     invert (AOr a b) = mk gen_or_invert (invert a) (invert b) /\
+     invert ANull = ANull /\ apply_acon ANull = [] /\
+     (gen_leaf_invert_flips = true /\ invert (ALeaf k) = ALeaf (flip k)) /\
+     (gen_and_apply_concat = true /\ apply_acon (AAnd a b) = apply_acon a ++ apply_acon b) /\
+     (gen_leaf_apply_self = true /\ apply_acon (ALeaf k) = [k])) /\
+  (forall a b c d e f g h i, gen_equals a b c d e f g h i = equals_skel a b c d e f g h i) /\
+  (forall a b c d e f g, gen_in a b c d e f g = in_skel a b c d e f g) /\
+  (forall l use_is s positive, wf_obj l = true ->
+     pred_equals l use_is s positive =
+     einterp (equals_skel (is_known_b (sbase s))
+                (Bool.eqb (if use_is then obj_eqb (known_obj (sbase s)) l else py_eq (known_obj (sbase s)) l) positive)
+                positive (assignable_lit s l) (is_bool_lit l) (is_typed_b (sbase s))
+                (cls_eqb (nominal_cls (sbase s)) CBool) (is_enum_lit l)
+                (cls_eqb (nominal_cls (sbase s)) (class_of l))) s l) /\
+  (forall ls s positive,
+     pred_in ls s positive =
+     iinterp (in_skel (is_known_b (sbase s)) (existsb (py_eq (known_obj (sbase s))) ls) positive
+                (match filter (assignable_lit s) ls with [] => false | _ => true end)
+                (match in_pattern_type ls with Some c => is_enum c | None => false end)
+                (match sbase s with VTyped _ => true | _ => false end)
+                (match in_pattern_type ls, sbase s with Some c, VTyped c' => cls_eqb c c' | _, _ => false end)) s ls).
+Proof.
+  exact (conj invert_tie (conj gen_equals_agrees (conj gen_in_agrees (conj pred_equals_is_skel pred_in_is_skel)))).
+Qed.
+Print Assumptions C02_constraint_algebra_tie.
+
 (* (1) the object that takes a branch is still in the type assigned in that branch:
    all condition kinds, arbitrary not/and/or nesting, both polarities, any union V *)
 Theorem C02_narrow_keeps_value_partial : forall V c pol o,
@@ -113,6 +180,29 @@ Theorem C02_assert_promotion_refuted :
     assert_promotion c o = true /\ member o (narrow V c pol) = false.
 Proof. exact assert_promotion_refuted. Qed.
 Print Assumptions C02_assert_promotion_refuted.
+
+Theorem C02_generic_pattern_negative_refuted :
+  exists V c pol o, wf_obj o = true /\ cond_ok c o = true /\ member o V = true /\ holds c o = Some pol /\
+    generic_pattern_negative c o = true /\ member o (narrow V c pol) = false.
+Proof. exact generic_pattern_negative_refuted. Qed.
+Print Assumptions C02_generic_pattern_negative_refuted.
+
+(* after the repair of the positive is_instance / is_value branches *)
+Example C02_assert_promotion_repaired :
+  narrow [plain (VTyped CFloat)] (CAssertInst CInt) true = [plain (VTyped CInt)] /\
+  c02_guard (CAssertInst CInt) (OInt 1) = true /\ holds (CAssertInst CInt) (OInt 1) = Some true /\
+  narrow [plain (VTyped CFloat)] (CAssertIs (OBool true)) true = [plain (VKnown (OBool true))] /\
+  narrow [plain (VSub CFloat)] (CAssertIs (OClass CInt)) true = [plain (VKnown (OClass CInt))].
+Proof. exact assert_promotion_repaired. Qed.
+Print Assumptions C02_assert_promotion_repaired.
+
+(* after the repair of _deliteral: TypeIs[list[str]] on x: list[int] keeps the empty list *)
+Example C02_generic_typeis_positive :
+  narrow [plain (VGen (GList TIntE))] (CTypeIs [VGen (GList TStrE)]) true = [plain (VGen (GList TStrE))] /\
+  c02_guard (CTypeIs [VGen (GList TStrE)]) (OList []) = true /\
+  holds (CTypeIs [VGen (GList TStrE)]) (OList []) = Some true.
+Proof. exact generic_typeis_positive. Qed.
+Print Assumptions C02_generic_typeis_positive.
 
 (* match statements: `case [a, b, *rest]` on a union of tuples of different lengths keeps exactly
    the tuples that can match, and the object that matches is covered by the main theorem *)
